@@ -301,10 +301,22 @@ def _shard_programs(args):
                 vb.add("C06/program/error-one-side/" + "+".join(_mnemonic(x) for x in seq), f"program {[s.hex() for s in seq]}: python err={py.get('err')} rust={o.get('err') or o.get('panic')}",
                        {"program": [s.hex() for s in seq], "state": st, "steps": nsteps})
                 continue
+            # F bits 2..7 (finding F-C06-f-upper-bits) are masked so that they do not hide what follows; a divergence after
+            # such a difference is labelled as its consequence
+            rt = o.get("trace", [])
+            tainted_at = next((k for k, t in enumerate(rt) if t["F"] & 0xFC), None)
+            for t in rt:
+                t["F"] &= 0x03
+            for t in py.get("trace", []):
+                t["F"] &= 0x03
             bad = program_divergence(py, o, mem, fill, nsteps)
+            mns = "+".join(_mnemonic(x) for x in seq) if steps is None else "loop:" + "+".join(_mnemonic(x) for x in seq)
+            if bad and tainted_at is not None and tainted_at < bad[0]:
+                vb.add(f"C06/program/after-f-upper-bits/{mns}", f"program {[s.hex() for s in seq]} diverges at step {bad[0]} after the Rust core "
+                       f"restored F bits 2..7 at step {tainted_at}", {"program": [s.hex() for s in seq], "state": st, "steps": nsteps})
+                continue
             if bad:
                 k, name, a, b = bad
-                mns = "+".join(_mnemonic(x) for x in seq) if steps is None else "loop:" + "+".join(_mnemonic(x) for x in seq)
                 fld = "reg" if name in pycpu.ARCH_REGS else name
                 vb.add(f"C06/program/{fld}/{mns}",
                        f"program {[s.hex() for s in seq]} diverges at step {k}: {name} python {a:#x} rust {b:#x}",
@@ -335,6 +347,14 @@ def run(ctx) -> None:
     pcs_cf = [] if not ctx.thorough else [0x1FFFD, 0xFFFF0]
     pairs = [(p, op) for p in drv.PRE_CHOICES for op in range(256) if not (p is None and op in drv.PRE_BYTES)]
     res = pmap(_shard_shapes, [(s, tails, states, pcs_cf) for s in chunks(pairs, nproc() * 4)])
+    # register-only instructions at the boundary values of every register width (no memory operand, so no wrap questions)
+    bnd = [{"bpx": BPX[0], "bg": bg, "F": f, "fill": 0x10B} for f, bg in
+           ((0, {"BA": 0xFFFF, "I": 0xFFFF, "X": 0xFFFFF, "Y": 0xFFFFF, "U": 0xFFFFF, "S": 0xFFFFF}),
+            (3, {"BA": 0x0000, "I": 0x0000, "X": 0x00000, "Y": 0x00000, "U": 0x00000, "S": 0x00000}),
+            (1, {"BA": 0x7FFF, "I": 0x8000, "X": 0x7FFFF, "Y": 0x80000, "U": 0x0FFFF, "S": 0x10000}),
+            (2, {"BA": 0x00FF, "I": 0x0100, "X": 0x000FF, "Y": 0x0FF00, "U": 0xF0000, "S": 0x00001}))]
+    reg_only = [(None, op) for op in (0x6C, 0x7C, 0x44, 0x45, 0x46, 0x4C, 0x4D, 0x4E, 0xED, 0xFD, 0xEE, 0xE4, 0xE6, 0xF4, 0xF6)]
+    res += pmap(_shard_shapes, [(c, tails[:1], bnd, []) for c in chunks(reg_only, nproc())])
     ctx.log(f"shapes done: {sum(r['n'] for r in res)} executions on both cores")
     pal = [bytes.fromhex(x) for x in PROGRAM_PALETTE_HEX]
     pal = [p for p in pal if drv.py_decode(p + b"\x00" * 6, CODE)[0] is not None]
